@@ -35,6 +35,8 @@ PRIME = 2147483629  # < 2^31, products fit in int64
 
 def group_closed(ops) -> bool:
     keys = {tuple(np.asarray(g, dtype=np.int64).reshape(-1)) for g in ops}
+    if len(keys) != len(ops) or not all(refs.is_signed_perm(g) for g in ops):
+        return False  # the theorems need a duplicate-free list of signed permutations
     return all(
         tuple((np.asarray(a, dtype=np.int64) @ np.asarray(b, dtype=np.int64)).reshape(-1)) in keys
         for a in ops
